@@ -286,6 +286,15 @@ class disassembler(object):
         return (f, l)
 
     def __call__(self, bytestring, **kargs):
+        try:
+            return self.__decode(bytestring, **kargs)
+        except Exception:
+            # an exception escaping from a spec hook must not leave the
+            # pending prefix instruction behind for the next call:
+            self.__i = None
+            raise
+
+    def __decode(self, bytestring, **kargs):
         e = self.endian(**kargs)
         adjust = lambda x: x.ival
         bs = bytestring[0:self.maxlen]
